@@ -9,9 +9,15 @@ PLAN = dict(
          "pipeline; for each: (i) model of the x86-64 code generator = instruction list of the real one (modulo COMMENT), "
          "(ii) the REAL instruction list is executed on the ISA model (undefined-value tracking, call havoc, alignment, encodability) "
          "for 4 argument tuples and compared with the AxCut linear machine; non-trivial = every program (tag nt); tags: spills, print, table, size",
-    explanation="theorems: instruction selection (5 operators incl. div/rem register shuffling, mov, literals, comparisons/conditional jumps) "
-                "for all placements and contents; constants tie; whole-program preservation is stated (C06_codegen_correct_statement) and "
-                "checked by executing the implementation's output",
+    explanation="theorems: (1) instruction selection (5 operators incl. div/rem register shuffling, mov, literals, comparisons/conditional jumps) "
+                "for all placements and contents; constants tie; (2) forward simulation: state relation (integers; closures without captured variables), one "
+                "simulation theorem per statement for every context shape - Literal, Op incl. undefined div/rem, IfC, Substitute with its reference-count code, "
+                "PrintI64 on the external-call model for any set of registers to save, Call, Exit/epilogue, prologue, Create and Invoke (code addresses, jump "
+                "tables, indirect jumps) -, composition by induction on the machine's fuel with progress (C06_sim_exec, C06_sim_exec_cf), image layout from "
+                "asm_wf, and the whole-program theorems C06_codegen_simulates_int and C06_codegen_simulates_cf (integer programs; first-order tail-recursive "
+                "programs with their return continuations): every terminating run of the linear machine is reproduced by run_x86 on the emitted code; "
+                "whole-program preservation for programs with heap blocks (Let/Switch, closures with captured variables) is stated "
+                "(C06_codegen_correct_statement) and checked by executing the implementation's output",
     assumptions=["Sem/X86Sem.v is the meaning of the emitted instructions (validated against the AxCut machine on every run; native execution in C01)",
                  "Sem/AxSem.v run_linear is the meaning of linear AxCut"],
     trusted=["coq/Sem/X86Sem.v (x86-64 subset semantics, external-call model)", "coq/Sem/AxSem.v (AxCut machines)"],
